@@ -93,6 +93,9 @@ func flatRing(ring []ipt, stride int, r *fw.Rand) []float64 {
 			}
 		}
 	}
+	if r != nil {
+		negZeros(r, out, stride)
+	}
 	return out
 }
 
@@ -116,6 +119,9 @@ var (
 )
 
 func c11CheckRing(c *fw.Ctx, p ipt, ring []ipt, variants bool) {
+	if c.R.Chance(1, 64) {
+		xyRefusedCalls(c)
+	}
 	c.SetInput(c11Desc(p, ring))
 	want, tv, hr := iLocate(p, ring)
 	switch want {
@@ -357,6 +363,9 @@ func c11Random(c *fw.Ctx, idx int) {
 
 // (iii) point on line: integer polylines and moderate floats
 func c11OnLine(c *fw.Ctx, idx int) {
+	if c.R.Chance(1, 64) {
+		xyRefusedCalls(c)
+	}
 	r := c.R
 	n := r.Range(2, 8)
 	useFloat := r.Chance(1, 3)
